@@ -5,7 +5,8 @@ Require Import Verif.Codec.JsonClean Verif.Codec.JsonCleanProps Verif.Codec.Sour
                Verif.Codec.Dispatch Verif.Codec.DispatchProps
                Verif.Codec.PostProcess Verif.Codec.PostProcessProps Verif.Codec.AssocProps Verif.Codec.CollectorProps
                Verif.Codec.JsonTokens Verif.Codec.JsonTokensProps Verif.Codec.FileWrite
-               Verif.Gen.JsonRegex Verif.Gen.PbDispatch.
+               Verif.Codec.StripCtx Verif.Codec.StripCtxProps Verif.Codec.StripSource Verif.Codec.JsonStrings
+               Verif.Gen.JsonRegex Verif.Gen.PbDispatch Verif.Gen.StripCtx.
 
 (* ---- the JSON clean-up removes the salt and nothing else: every document of protojson's line shape (any keys and
    strings, any nesting), every choice of one or two spaces per key; stated for the escape-aware expression ... *)
@@ -93,7 +94,7 @@ Theorem C09_post_idempotent : forall cn m m1, idem_cond cn m = true -> post cn m
 Proof. exact post_idempotent. Qed.
 Print Assumptions C09_post_idempotent.
 
-(* under that condition the heap model of the collector (with pointer sharing) equals a closed form *)
+(* under that condition the collector equals a closed form (last writer wins per endpoint and per call target) *)
 Theorem C09_collector_closed_form : forall cn eps, coll_cond cn eps = true -> collector cn eps = Some (coll_result cn eps).
 Proof. exact collector_closed_form. Qed.
 Print Assumptions C09_collector_closed_form.
@@ -127,3 +128,76 @@ Theorem C09_written_file_is_the_encoding : forall w m fs p b,
   In (w, m) file_writers -> exists fs', write_file m fs p b = Some fs' /\ read fs' p = Some b.
 Proof. exact written_file_is_the_encoding. Qed.
 Print Assumptions C09_written_file_is_the_encoding.
+
+(* ---- `sysl pb --mode json --compact`: the reflection walk that removes source contexts before encoding
+   (cmd/sysl/cmd_protobuf.go; field-name tests, arms, call site and guards regenerated into Gen/StripCtx.v) *)
+
+(* for EVERY rule whose overwrite test accepts location names only and EVERY Go value tree: dropping all locations
+   after the walk = dropping all locations without it - the walk changes nothing but locations *)
+Theorem C09_strip_only_locations : forall (L:string -> bool) (r:rule),
+  (forall n, any_test (r_clear r) n = true -> L n = true) -> forall v, erase L (strip r v) = erase L v.
+Proof. exact strip_only_locations. Qed.
+Print Assumptions C09_strip_only_locations.
+
+(* the rule of the CURRENT source is such a rule (obligation rule_as_expected: == "SourceContext", not a prefix) *)
+Theorem C09_source_strip_only_locations : forall v, erase is_loc (strip src_rule v) = erase is_loc v.
+Proof. exact source_strip_only_locations. Qed.
+Print Assumptions C09_source_strip_only_locations.
+
+(* the command: whatever --mode / --compact, the model handed to the encoder equals the compiled one apart from
+   locations; and it IS the compiled one unless the mode is json and --compact is given *)
+Theorem C09_cli_only_locations : forall json compact v,
+  erase is_loc (cli_model strip_sites src_rule json compact v) = erase is_loc v.
+Proof. exact source_cli_only_locations. Qed.
+Print Assumptions C09_cli_only_locations.
+
+Theorem C09_cli_identity_unless_compact_json : forall json compact v,
+  json && compact = false -> cli_model strip_sites src_rule json compact v = v.
+Proof. exact source_cli_identity_unless_compact_json. Qed.
+Print Assumptions C09_cli_identity_unless_compact_json.
+
+(* what the walk overwrites is a location by TYPE too: in sysl.pb.go a field is called SourceContext(s) iff its type is
+   (a slice of) *SourceContext - Endpoint.Source : *AppName is none *)
+Theorem C09_cleared_field_is_location_typed : forall ty decl n t,
+  fields_of schema ty = Some decl -> In (n, t) decl -> any_test (r_clear src_rule) n = true -> mentions_loc t = true.
+Proof. exact cleared_field_is_location_typed. Qed.
+Print Assumptions C09_cleared_field_is_location_typed.
+
+Theorem C09_strip_source_obligations :
+  src_rule = expected_rule /\
+  (strip_sites = [("m.Apps", ["toJSON"; "p.compact"])]%string /\ strip_before_encoders = true /\
+   json_test = "p.mode == ""json"" || p.mode == """" && strings.HasSuffix(p.output, "".json"")"%string) /\
+  (names_match_types schema = true /\ no_plain_struct_fields schema = true) /\
+  split_error_returned = true.
+Proof. exact (conj rule_as_expected (conj sites_as_expected (conj schema_names_match_types split_error_reaches_caller))). Qed.
+Print Assumptions C09_strip_source_obligations.
+
+(* thorough where it looks, idempotent *)
+Theorem C09_strip_clears_all_in_reach : forall v, reachable_clear src_rule (strip src_rule v) = false.
+Proof. exact source_strip_clears_all_in_reach. Qed.
+Print Assumptions C09_strip_clears_all_in_reach.
+
+Theorem C09_strip_idempotent : forall r v, strip r (strip r v) = strip r v.
+Proof. exact strip_idempotent. Qed.
+Print Assumptions C09_strip_idempotent.
+
+(* REFUTED: "compact JSON carries no locations" - the repeated source_contexts are passed over (witness: a pubsub
+   subscriber; the same witness shows Endpoint.Source surviving, StripSource.ex_sub_stripped) *)
+Theorem C09_compact_json_location_free_refuted : exists v,
+  conf schema oneofs (TPtr "Module"%string) v = true /\ has_loc is_loc (cli_model strip_sites src_rule true true v) = true.
+Proof. exact compact_json_location_free_refuted. Qed.
+Print Assumptions C09_compact_json_location_free_refuted.
+
+(* why the obligation on the name test matters: a prefix test loses Endpoint.Source *)
+Theorem C09_prefix_rule_loses_source : exists v,
+  conf schema oneofs (TPtr "Module"%string) v = true /\ erase is_loc (strip prefix_rule v) <> erase is_loc v.
+Proof. exact prefix_rule_loses_source. Qed.
+Print Assumptions C09_prefix_rule_loses_source.
+
+(* ---- the clean-up leaves every JSON string alone (keys, string elements, string VALUES = the rest of a key's line):
+   the cleaned document prints from lines with the same kinds, indentation, key/string bytes and rest-of-line bytes *)
+Theorem C09_clean_keeps_strings : forall ls, wf_doc ls = true ->
+  exists ls', clean KeyEsc (print ls) = print ls' /\ map payload ls' = map payload ls /\
+              forallb (fun l => negb (salted l)) ls' = true.
+Proof. exact clean_keeps_strings. Qed.
+Print Assumptions C09_clean_keeps_strings.
